@@ -308,6 +308,8 @@ func GenSession(r *rand.Rand, idx int) Session {
 	switch {
 	case idx%5 == 2: // a fixed share of sessions with replies that straddle the caller's deadline
 		s.Profile = "straddle"
+	case idx%13 == 9 || idx%24 == 23: // requests of 16-70 KB, lengths swept across multiples of 16 384 (idx%24==23: always 1.1 + echo)
+		s.Profile = "bigreq"
 	case idx%11 == 6: // quiet periods longer than the previous call's timeout
 		s.Profile = "idle"
 	case idx%15 == 11: // forced schedules at the library's yield points (run solo)
@@ -361,10 +363,13 @@ func GenSession(r *rand.Rand, idx int) Session {
 	case "forced":
 		n = 4 + r.Intn(5)
 		s.Seg = segs[r.Intn(len(segs))]
+	case "bigreq":
+		n = 8
+		s.Seg = []devsim.Seg{{Mode: "whole"}, {Mode: "fixed", Size: 4096}, {Mode: "fixed", Size: 700}, {Mode: "mix", Size: 4096}}[r.Intn(4)]
 	case "idle":
 		n = 5 + r.Intn(4)
 		// set-up calls must finish well inside 250-400 ms: large reads only
-		s.Seg = []devsim.Seg{{Mode: "whole"}, {Mode: "fixed", Size: 4096}, {Mode: "mix", Size: 100}, {Mode: "fixed", Size: 700}}[r.Intn(4)]
+		s.Seg = []devsim.Seg{{Mode: "whole"}, {Mode: "fixed", Size: 4096}, {Mode: "whole"}, {Mode: "fixed", Size: 700}}[r.Intn(4)]
 	default:
 		s.Seg = segs[r.Intn(len(segs))]
 	}
@@ -394,7 +399,8 @@ func GenSession(r *rand.Rand, idx int) Session {
 	}
 	if idx%3 == 1 { // a fixed third of the sessions runs behind a tty line discipline
 		s.TTY = []string{"every", "framing", "random", "none", "every", "framing"}[(idx/3)%6]
-		if (s.Profile == "big" || s.Profile == "idle" || s.ReadDelayMs > 0) && s.TTY != "none" {
+		small := s.Seg.Mode != "whole" && s.Seg.Size <= 17
+		if (s.Profile == "big" || s.Profile == "idle" || s.ReadDelayMs > 0 || (small && s.Seg.Size > 3)) && s.TTY != "none" {
 			// thousands of pairs in 300 KiB of data / every extra read costs a raised read delay: cut
 			// only the framing pairs
 			s.TTY = "framing"
@@ -408,7 +414,7 @@ func GenSession(r *rand.Rand, idx int) Session {
 		maxFill = 120
 	case s.Profile == "long":
 		maxFill = 200
-	case s.Profile == "straddle", s.Profile == "big", s.Profile == "race", s.Profile == "forced", s.Profile == "idle":
+	case s.Profile == "straddle", s.Profile == "big", s.Profile == "race", s.Profile == "forced", s.Profile == "idle", s.Profile == "bigreq":
 		maxFill = 300
 	}
 	releases := []string{"before-next", "before-next", "with-next-before", "next-write-1", "next-write-2", "after-next", "after-2", "at-end"}
@@ -416,6 +422,7 @@ func GenSession(r *rand.Rand, idx int) Session {
 		releases = append(releases, "next-write-1", "next-write-3")
 	}
 	cutKinds := []string{"one", "random", "random", "attr", "attr", "attr-digits", "attr-multi", "attr-bytes", "edges", "all-bytes"}
+	bigReqM := 1
 	reqs := 0 // requests sent before this call (local failures send nothing)
 	tag := fmt.Sprintf("%05d", idx)
 	for k := 0; k < n; k++ {
@@ -455,6 +462,13 @@ func GenSession(r *rand.Rand, idx int) Session {
 			default:
 				c.Plan = "never"
 			}
+		case "bigreq":
+			c.Plan = "now"
+			if q < 8 {
+				c.Plan = "never"
+			} else if q < 16 {
+				c.Plan = "late"
+			}
 		case "idle":
 			c.Plan = "now"
 			if k > 0 && s.Calls[k-1].Plan == "now" && s.Calls[k-1].TimeoutMs > 0 {
@@ -467,10 +481,10 @@ func GenSession(r *rand.Rand, idx int) Session {
 					c.Plan = "never"
 				}
 				if q >= 60 {
-					c.TimeoutMs = 250 + r.Intn(150) // ... and a chain: this one is a set-up call again
+					c.TimeoutMs = 350 + r.Intn(200) // ... and a chain: this one is a set-up call again
 				}
 			} else if k < n-1 {
-				c.TimeoutMs = 250 + r.Intn(150)
+				c.TimeoutMs = 350 + r.Intn(200)
 			}
 		case "forced":
 			switch {
@@ -525,6 +539,7 @@ func GenSession(r *rand.Rand, idx int) Session {
 		// a fixed share of the replies is one long line (not with one-byte reads: thousands of reads per
 		// reply, and the end of the delimiter never shares a read with what follows it there)
 		oneLine := !huge && (idx*3+k)%7 == 2 && !(s.Seg.Mode == "fixed" && s.Seg.Size == 1)
+		hugeOneLine := huge && q%2 == 0 // half of the 150-300 KiB class is one line of 64-300 KB instead
 		big := (maxFill == 600 && r.Intn(14) == 0) || huge || oneLine
 		if s.HoldHelloTail > 0 && reqs == 0 && c.Plan != "local" && s.Profile != "idle" && !(s.Seg.Mode == "fixed" && s.Seg.Size < 17) && r.Intn(4) != 0 {
 			// a first request larger than any read: its echo starts in the read that ends the echo of
@@ -538,6 +553,20 @@ func GenSession(r *rand.Rand, idx int) Session {
 		} else {
 			genRequest(r, &c, big && r.Intn(2) == 0)
 		}
+		if s.Profile == "bigreq" && c.Plan != "local" {
+			// the serialized request (xml declaration + rpc element) gets a length of m*16384-2+k for the
+			// k-th call: eight consecutive lengths across a multiple of 16 384 (1.1 senders that frame in
+			// 16 KiB chunks put a chunk header into the closing tag for five of them)
+			if k == 0 {
+				bigReqM = 1 + r.Intn(4)
+			}
+			c.Kind, c.Store = "edit-config", "candidate"
+			head := `<config><system xmlns="urn:verif:sys"><motd>`
+			tail := `</motd></system></config>`
+			overhead := len(xmlHeader) + len(fmt.Sprintf(`<rpc xmlns="%s" message-id="%d">`, nsBase, 101+reqs)) +
+				len(`<edit-config><target><candidate></candidate></target>`) + len(head) + len(tail) + len(`</edit-config></rpc>`)
+			c.Arg = head + randStr(r, nameAlpha+" ", bigReqM*16384-2+k-overhead) + tail
+		}
 		c.Nonce = fmt.Sprintf("nx%s-%03d-%08x", tag, k, r.Uint32())
 		c.Shape = []int{0, 0, 0, 1, 2, 3, 4, 5}[r.Intn(8)]
 		c.Body = []string{"data", "data", "ok", "error"}[r.Intn(4)]
@@ -547,6 +576,16 @@ func GenSession(r *rand.Rand, idx int) Session {
 				c.FillLen = 1000 + r.Intn(4000)
 				if maxFill < 200 {
 					c.FillLen = 1000 + r.Intn(200) // tiny reads: keep it short, still >= 1000 on one line
+				} else if s.Seg.Mode != "whole" && s.Seg.Size <= 17 {
+					c.FillLen = 1000 + r.Intn(1500)
+				}
+				c.FillSeed = r.Int63()
+				c.Body = "data"
+			} else if hugeOneLine {
+				c.OneLine = true
+				c.FillLen = 66000 + r.Intn(234000) // the line with the start tag is 65 536 bytes or longer
+				if r.Intn(4) == 0 {
+					c.FillLen = 65100 + r.Intn(700) // around the 64 KiB mark, either side
 				}
 				c.FillSeed = r.Int63()
 				c.Body = "data"
@@ -659,6 +698,9 @@ func GenSession(r *rand.Rand, idx int) Session {
 			c.CutKind = cutKinds[r.Intn(len(cutKinds))]
 			if c.CutKind == "all-bytes" && (len(pl) > 400 || maxFill < 600) {
 				c.CutKind = "attr-bytes"
+			}
+			if c.OneLine && c.FillLen >= 60000 {
+				c.CutKind = "one" // a server that sends the reply as one chunk: the first chunk is the long line
 			}
 			c.Cuts = genCuts(r, pl, c.CutKind)
 		}
